@@ -547,7 +547,7 @@ def pubkey_candidates(ci, rng, quick=True):
     """structured stream of byte strings around the encodings of public keys of the curve -> (bytes, tag)"""
     l, p = ci.l, ci.p
     out = []
-    pts = some_points(ci, rng, 2 if quick else 5)
+    pts = some_points(ci, rng, 2 if quick else 12)
     lz = leading_zero_point(ci, rng, 400 if quick else 3000)
     if lz:
         pts.append(lz)
@@ -709,7 +709,8 @@ def toy_curve(p, a, b):
     return ci
 
 
-TOYS = [(11, 1, 6), (13, 2, 4), (11, 0, 2), (17, 1, 3), (23, 1, 1), (13, 0, 3), (11, 0, 1)]
+# (p, a, b): cofactors 1, 1, -, 1, 4 (K2), -, -, 3 (odd: exact), 2 (K2), 5 (odd: exact)
+TOYS = [(11, 1, 6), (13, 2, 4), (11, 0, 2), (17, 1, 3), (23, 1, 1), (13, 0, 3), (11, 0, 1), (19, 0, 4), (19, 2, 5), (29, 1, 7)]
 
 
 # ------------------------------------------------------------------------------------------------
